@@ -73,7 +73,10 @@ type Ctx struct {
 	lastDefined string
 	syms        map[string]map[string]bool
 	symsN       int
+	skolems     []skolemConst
 }
+
+type skolemConst struct{ sort, name string }
 
 func newCtx() *Ctx {
 	c := &Ctx{strLits: map[string]string{}, ufs: map[string]bool{}, typeTags: map[string]int{}, globals: map[string]bool{}, trusted: map[string]bool{}, notes: map[string]bool{}}
